@@ -43,7 +43,7 @@ func (j *JV) text() string {
 	case "num":
 		return j.T
 	case "str":
-		return `"` + j.T + `"`
+		return `"` + jsonEscape(j.T) + `"`
 	case "arr":
 		xs := make([]string, len(j.Xs))
 		for i, x := range j.Xs {
@@ -82,4 +82,27 @@ func (j *JV) coq() string {
 		}
 		return "(JObj " + coqfmt.List(xs) + ")"
 	}
+}
+
+// jsonEscape writes a string value as JSON text (the vector unescapes it lazily)
+func jsonEscape(t string) string {
+	if !strings.ContainsAny(t, "\"\\\t\n") {
+		return t
+	}
+	var sb strings.Builder
+	for i := 0; i < len(t); i++ {
+		switch t[i] {
+		case '"':
+			sb.WriteString("\\\"")
+		case '\\':
+			sb.WriteString("\\\\")
+		case '\t':
+			sb.WriteString("\\t")
+		case '\n':
+			sb.WriteString("\\n")
+		default:
+			sb.WriteByte(t[i])
+		}
+	}
+	return sb.String()
 }
